@@ -557,16 +557,41 @@ func c23Line(sh *c23Shape, anns, ops []string) string {
 }
 
 func c23Gen(r *vhRng) string {
-	switch k := r.Intn(20); {
+	switch k := r.Intn(24); {
 	case k < 9:
 		return c23GenMixed(r, false)
 	case k < 11:
 		return c23GenMixed(r, true)
 	case k < 15:
 		return c23GenScheduled(r)
-	default:
+	case k < 20:
 		return c23GenForced(r)
+	default:
+		return c23GenTiny(r)
 	}
+}
+
+// tiny: every shape of 2..4 blocks is equally likely, announcements are dense, delays reach past the tree:
+// the small space is covered (nearly) exhaustively by the thorough tier
+func c23GenTiny(r *vhRng) string {
+	n := 2 + r.Intn(3)
+	sh := &c23Shape{parents: make([]int, n), num: make([]int, n+1)}
+	for i := 1; i <= n; i++ {
+		p := r.Intn(i)
+		sh.parents[i-1] = p
+		sh.num[i] = sh.num[p] + 1
+	}
+	var anns []string
+	for i := 1; i <= n; i++ {
+		switch r.Intn(4) {
+		case 0:
+		case 1, 2:
+			anns = append(anns, fmt.Sprintf("%ds%d.%d", i, r.Intn(3), i))
+		default:
+			anns = append(anns, fmt.Sprintf("%df%d.%d.%d", i, r.Intn(3), 10+i, r.Intn(sh.num[i]+1)))
+		}
+	}
+	return c23Line(sh, anns, c23Ops(r, sh, 2, 5, false))
 }
 
 // mixed: scheduled and forced announcements anywhere
